@@ -1,5 +1,7 @@
 import Litep2pVerif.Model.Mss.WebRtc
-/-! Safety half of the message-based negotiation. -/
+import Litep2pVerif.Proofs.Mss.Negotiate
+/-! The message-based negotiation: safety lemmas, the payload format (`wFrame`) with its
+encode/decode lemmas, and the induction over the fallback list behind `webrtc_agree`. -/
 namespace Litep2pVerif.Mss
 
 theorem wListenFinish_accepted (sup : List Bytes) (q : Bytes) (hdr : Bool) (rest : Bytes) (p m : Bytes)
@@ -27,5 +29,397 @@ theorem wRegisterLoop_succeeded :
     rw [wRegisterLoop] at h
     repeat' split at h
     all_goals first | (have := ih _ _ _ h; simpa using this) | simp_all
+
+/-! ### The payload format: `uvi(len) ++ message` per message -/
+
+/-- One message the way `webrtc_encode_multistream_message` puts it into a payload. -/
+def wFrame (m : Msg) : Bytes := uviEncode m.encodedLen ++ m.encode
+
+/-- The header frame, `uvi(19) ++ "/multistream/1.0.0\n"`. -/
+abbrev wHdr : Bytes := wFrame .header
+
+theorem wHdr_length : wHdr.length = headerFrameLen := by decide
+
+theorem wHdr_ne_nil : wHdr ≠ [] := by decide
+
+theorem encodedLen_protocol (p : Bytes) : (Msg.protocol p).encodedLen = (Msg.protocol p).encode.length := by
+  simp [Msg.encodedLen, Msg.encode]
+
+theorem uviEncode_length_le_two (n : Nat) (h : n < 16384) : (uviEncode n).length ≤ 2 := by
+  by_cases h1 : n < 128
+  · rw [uviEncode_lt n h1]; simp
+  · rw [uviEncode_two n (by omega) h]; simp
+
+theorem uviEncode_length_two (n : Nat) (h1 : 128 ≤ n) (h : n < 16384) : (uviEncode n).length = 2 := by
+  rw [uviEncode_two n h1 h]; simp
+
+theorem wFrame_ne_nil (m : Msg) : wFrame m ≠ [] := by
+  have := uviEncode_ne_nil m.encodedLen
+  simp [wFrame, this]
+
+/-- `webrtc_encode_multistream_message(Protocol(p), false)` succeeds iff the frame fits: names up to
+`MAX_FRAME_SIZE − 3` bytes. -/
+theorem webrtcEncode_proto_false (p : Bytes) (h : p.length + 3 ≤ maxFrameSize) :
+    webrtcEncode (.protocol p) false = some (wFrame (.protocol p)) := by
+  rw [maxFrameSize_eq] at h
+  have h2 := uviEncode_length_le_two (p.length + 1) (by omega)
+  have : ¬ ((uviEncode (p.length + 1)).length + (p.length + 1) > maxFrameSize) := by
+    rw [maxFrameSize_eq]; omega
+  simp [webrtcEncode, wFrame, Msg.encodedLen, this]
+
+/-- `webrtc_encode_multistream_message(Protocol(p), true)` succeeds for names up to
+`MAX_FRAME_SIZE − 23` bytes (20 bytes of header frame, 2 of length prefix, 1 line feed). -/
+theorem webrtcEncode_proto_true (p : Bytes) (h : p.length + 23 ≤ maxFrameSize) :
+    webrtcEncode (.protocol p) true = some (wHdr ++ wFrame (.protocol p)) := by
+  rw [maxFrameSize_eq] at h
+  have h2 := uviEncode_length_le_two (p.length + 1) (by omega)
+  have h19 : uviEncode msgMultistream.length = [19] := by decide
+  have hl : msgMultistream.length = 19 := by decide
+  have : ¬ ((uviEncode msgMultistream.length).length + msgMultistream.length +
+      (uviEncode (p.length + 1)).length + (p.length + 1) > maxFrameSize) := by
+    rw [maxFrameSize_eq, h19, hl]; simp; omega
+  simp [webrtcEncode, wFrame, Msg.encodedLen, this, Msg.encode]
+
+theorem uviEncode_length_ge_two (n : Nat) (h : 128 ≤ n) : 2 ≤ (uviEncode n).length := by
+  rw [uviEncode_ge n (by omega)]
+  have := uviEncode_length_pos (n / 128)
+  simp; omega
+
+/-- The bound of `webrtcEncode_proto_true` is exact: a longer name makes `propose` fail. -/
+theorem webrtcEncode_proto_true_too_long (p : Bytes) (h : maxFrameSize < p.length + 23) :
+    webrtcEncode (.protocol p) true = none := by
+  rw [maxFrameSize_eq] at h
+  have h2 := uviEncode_length_ge_two (p.length + 1) (by omega)
+  have h19 : uviEncode msgMultistream.length = [19] := by decide
+  have hl : msgMultistream.length = 19 := by decide
+  have : (uviEncode msgMultistream.length).length + msgMultistream.length +
+      (uviEncode (p.length + 1)).length + (p.length + 1) > maxFrameSize := by
+    rw [maxFrameSize_eq, h19, hl]; simp; omega
+  simp [webrtcEncode, Msg.encodedLen, this]
+
+theorem webrtcEncode_na (hdr : Bool) :
+    webrtcEncode .notAvailable hdr = some ((if hdr then wHdr else []) ++ wFrame .notAvailable) := by
+  cases hdr <;> decide
+
+/-- `decode_multistream_message` inverts the payload format on well-formed messages. -/
+theorem decodeMultistreamMessage_frame (m : Msg) (hwf : m.WellFormed)
+    (hlen : m.encodedLen = m.encode.length) (h64 : m.encode.length < 2 ^ 64) (rest : Bytes) :
+    decodeMultistreamMessage (wFrame m ++ rest) = .ok (m, rest) := by
+  have hdec : uviDecodeUsize (wFrame m ++ rest) = .ok (m.encode.length, m.encode ++ rest) := by
+    have := uviDecodeUsize_encode m.encode.length (m.encode ++ rest) h64
+    simpa [wFrame, hlen, List.append_assoc] using this
+  unfold decodeMultistreamMessage
+  rw [hdec]
+  simp [decode_encode m hwf]
+
+theorem protocol_lt (p : Bytes) (h : p.length + 3 ≤ maxFrameSize) : (Msg.protocol p).encode.length < 2 ^ 64 := by
+  rw [maxFrameSize_eq] at h
+  simp [Msg.encode]; omega
+
+theorem decodeMsg_header (rest : Bytes) : decodeMultistreamMessage (wHdr ++ rest) = .ok (.header, rest) :=
+  decodeMultistreamMessage_frame .header trivial (by decide) (by decide) rest
+
+theorem decodeMsg_na (rest : Bytes) :
+    decodeMultistreamMessage (wFrame .notAvailable ++ rest) = .ok (.notAvailable, rest) :=
+  decodeMultistreamMessage_frame .notAvailable trivial (by decide) (by decide) rest
+
+theorem decodeMsg_proto (p : Bytes) (hv : ValidName p) (h : p.length + 3 ≤ maxFrameSize) (rest : Bytes) :
+    decodeMultistreamMessage (wFrame (.protocol p) ++ rest) = .ok (.protocol p, rest) :=
+  decodeMultistreamMessage_frame (.protocol p) hv (encodedLen_protocol p) (protocol_lt p h) rest
+
+/-! ### `register_response` on well-formed frames -/
+
+/-- The common prefix of one loop iteration on a payload that starts with a frame. -/
+theorem wRegisterLoop_frame (fuel : Nat) (d : WDialer) (m : Msg) (hwf : m.WellFormed)
+    (hlen : m.encodedLen = m.encode.length) (h64 : m.encode.length < 2 ^ 64) (rest : Bytes) :
+    wRegisterLoop (fuel + 1) d (wFrame m ++ rest) =
+      match d.state, m with
+      | .waitingResponse, .header => wRegisterLoop fuel { d with state := .waitingProtocol } rest
+      | .waitingResponse, _ => (d, .error .failed)
+      | .waitingProtocol, .notAvailable => (d, .ok .rejected)
+      | .waitingProtocol, .protocol p =>
+        if p = protoMultistream then (d, .error .stateMismatch)
+        else if d.protocol = p then (d, .ok (.succeeded d.protocol))
+        else (d, .error .failed)
+      | .waitingProtocol, .listProtocols => (d, .error .invalidMessage)
+      | _, _ => (d, .error .stateMismatch) := by
+  have hdec : uviDecodeUsize (wFrame m ++ rest) = .ok (m.encode.length, m.encode ++ rest) := by
+    have := uviDecodeUsize_encode m.encode.length (m.encode ++ rest) h64
+    simpa [wFrame, hlen, List.append_assoc] using this
+  have hne : wFrame m ++ rest ≠ [] := by simp [wFrame_ne_nil]
+  rw [wRegisterLoop, if_neg hne, hdec]
+  simp only [List.length_append, List.take_left', List.drop_left', decode_encode m hwf]
+  rw [if_neg (by omega)]
+  cases hs : d.state <;> cases m <;> simp
+
+/-- A name the message-based dialer can propose as a fallback (no header in front): valid and at
+most `MAX_FRAME_SIZE − 3` bytes. -/
+def WProposable (p : Bytes) : Prop := ValidName p ∧ p.length + 3 ≤ maxFrameSize
+
+instance (p : Bytes) : Decidable (WProposable p) := by unfold WProposable; infer_instance
+
+theorem wRegister_nil_wp (d : WDialer) (h : d.state = .waitingProtocol) (fuel : Nat) :
+    wRegisterLoop (fuel + 1) d [] = (d, .ok .notReady) := by
+  simp [wRegisterLoop, h]
+
+/-- The dialer, waiting for the confirmation of `d.protocol`, gets exactly that confirmation. -/
+theorem wRegister_confirm (d : WDialer) (hs : d.state = .waitingProtocol) (hp : WProposable d.protocol) :
+    wRegister d (wFrame (.protocol d.protocol)) = (d, .ok (.succeeded d.protocol)) := by
+  have := wRegisterLoop_frame (wFrame (.protocol d.protocol)).length d (.protocol d.protocol) hp.1
+    (encodedLen_protocol _) (protocol_lt _ hp.2) []
+  rw [List.append_nil] at this
+  rw [wRegister, this, hs]
+  simp [hp.1.2.2]
+
+theorem wRegister_na (d : WDialer) (hs : d.state = .waitingProtocol) :
+    wRegister d (wFrame .notAvailable) = (d, .ok .rejected) := by
+  have := wRegisterLoop_frame (wFrame .notAvailable).length d .notAvailable trivial (by decide) (by decide) []
+  rw [List.append_nil] at this
+  rw [wRegister, this, hs]
+
+/-- The header frame alone: `NotReady`, and the dialer now waits for the protocol. -/
+theorem wRegister_header (d : WDialer) (hs : d.state = .waitingResponse) :
+    wRegister d wHdr = ({ d with state := .waitingProtocol }, .ok .notReady) := by
+  have := wRegisterLoop_frame wHdr.length d .header trivial (by decide) (by decide) []
+  rw [List.append_nil] at this
+  rw [wRegister, this, hs]
+  have hl : wHdr.length = 19 + 1 := by decide
+  simp only [hl]
+  exact wRegister_nil_wp _ rfl _
+
+/-- Header and second message in one payload: as if the second message came alone afterwards. -/
+theorem wRegister_header_then (d : WDialer) (hs : d.state = .waitingResponse) (m : Msg)
+    (hm : m = .notAvailable ∨ ∃ p, m = .protocol p ∧ WProposable p) :
+    wRegister d (wHdr ++ wFrame m) = wRegister { d with state := .waitingProtocol } (wFrame m) := by
+  have h1 := wRegisterLoop_frame (wHdr ++ wFrame m).length d .header trivial (by decide) (by decide) (wFrame m)
+  rw [wRegister, h1, hs]
+  simp only
+  have hwf : m.WellFormed ∧ m.encodedLen = m.encode.length ∧ m.encode.length < 2 ^ 64 := by
+    rcases hm with rfl | ⟨p, rfl, hp⟩
+    · exact ⟨trivial, by decide, by decide⟩
+    · exact ⟨hp.1, encodedLen_protocol p, protocol_lt p hp.2⟩
+  obtain ⟨f1, hf1⟩ : ∃ f, (wHdr ++ wFrame m).length = f + 1 := ⟨(wHdr ++ wFrame m).length - 1, by
+    have : 0 < (wHdr ++ wFrame m).length := by
+      rw [List.length_append, wHdr_length]; simp [headerFrameLen]; omega
+    omega⟩
+  obtain ⟨f2, hf2⟩ : ∃ f, (wFrame m).length + 1 = f + 1 := ⟨_, rfl⟩
+  have a := wRegisterLoop_frame f1 { d with state := .waitingProtocol } m hwf.1 hwf.2.1 hwf.2.2 []
+  have b := wRegisterLoop_frame f2 { d with state := .waitingProtocol } m hwf.1 hwf.2.1 hwf.2.2 []
+  rw [List.append_nil] at a b
+  rw [wRegister, hf1, hf2, a, b]
+  rcases hm with rfl | ⟨p, rfl, hp⟩ <;> simp
+
+/-! ### `webrtc_listener_negotiate` on well-formed payloads -/
+
+theorem wListen_header_only (sup : List Bytes) : wListen sup wHdr false = .ok (.pendingProtocol wHdr) := by
+  have := decodeMsg_header []
+  rw [List.append_nil] at this
+  simp [wListen, this]
+
+theorem wListenFinish_nil (sup : List Bytes) (p : Bytes) (hdr : Bool)
+    (henc : webrtcEncode (.protocol p) hdr = some ((if hdr then wHdr else []) ++ wFrame (.protocol p))) :
+    wListenFinish sup p hdr [] =
+      if p ∈ sup then .ok (.accepted p ((if hdr then wHdr else []) ++ wFrame (.protocol p)))
+      else .ok (.rejected ((if hdr then wHdr else []) ++ wFrame .notAvailable)) := by
+  simp only [wListenFinish, ne_eq, not_true_eq_false, if_false, henc, webrtcEncode_na]
+
+/-- Header and proposal in one payload. -/
+theorem wListen_header_proto (sup : List Bytes) (p : Bytes) (hv : ValidName p) (h : p.length + 23 ≤ maxFrameSize) :
+    wListen sup (wHdr ++ wFrame (.protocol p)) false =
+      if p ∈ sup then .ok (.accepted p (wHdr ++ wFrame (.protocol p)))
+      else .ok (.rejected (wHdr ++ wFrame .notAvailable)) := by
+  have h1 := decodeMsg_header (wFrame (.protocol p))
+  have h2 := decodeMsg_proto p hv (by omega) []
+  rw [List.append_nil] at h2
+  have := wListenFinish_nil sup p true (by simpa using webrtcEncode_proto_true p h)
+  simp only [wListen, h1, h2, wFrame_ne_nil, if_false, this]
+  simp
+
+/-- A proposal alone, after the header was exchanged. -/
+theorem wListen_proto (sup : List Bytes) (p : Bytes) (hp : WProposable p) :
+    wListen sup (wFrame (.protocol p)) true =
+      if p ∈ sup then .ok (.accepted p (wFrame (.protocol p))) else .ok (.rejected (wFrame .notAvailable)) := by
+  have h2 := decodeMsg_proto p hp.1 hp.2 []
+  rw [List.append_nil] at h2
+  have := wListenFinish_nil sup p false (by simpa using webrtcEncode_proto_false p hp.2)
+  simp only [wListen, h2, this]
+  simp
+
+/-! ### `propose_next_fallback` and the response loop of the pair -/
+
+theorem wProposeNext_nil (d : WDialer) (h : d.fallbackNames = []) : wProposeNext d = (d, .ok none) := by
+  simp [wProposeNext, h]
+
+/-- The fallbacks are tried in the order given to `propose` (the list is stored reversed and popped
+from the end). -/
+theorem wProposeNext_cons (d : WDialer) (r : Bytes) (rest : List Bytes) (h : d.fallbackNames = (r :: rest).reverse)
+    (hr : WProposable r) :
+    wProposeNext d = ({ d with fallbackNames := rest.reverse, protocol := r }, .ok (some (wFrame (.protocol r)))) := by
+  have h1 : d.fallbackNames.getLast? = some r := by rw [h]; simp
+  have h2 : d.fallbackNames.dropLast = rest.reverse := by rw [h]; simp
+  have h3 : protocolTryFrom r = .ok r := by simp [protocolTryFrom, hr.1.1]
+  simp only [wProposeNext, h1, h2, h3, webrtcEncode_proto_false r hr.2]
+
+theorem wFeed_confirm (lres : Option (Except WErr Bytes)) (d : WDialer) (q : List Bytes)
+    (hs : d.state = .waitingProtocol) (hp : WProposable d.protocol) :
+    wFeed lres [wFrame (.protocol d.protocol)] d q = .inl ⟨.succeeded d.protocol, lres⟩ := by
+  simp only [wFeed, wRegister_confirm d hs hp]
+
+theorem wFeed_na_last (lres : Option (Except WErr Bytes)) (d : WDialer) (q : List Bytes)
+    (hs : d.state = .waitingProtocol) (hf : d.fallbackNames = []) :
+    wFeed lres [wFrame .notAvailable] d q = .inl ⟨.failed, lres⟩ := by
+  simp only [wFeed, wRegister_na d hs, wProposeNext_nil d hf]
+
+theorem wFeed_na_next (lres : Option (Except WErr Bytes)) (d : WDialer) (q : List Bytes) (r : Bytes) (rest : List Bytes)
+    (hs : d.state = .waitingProtocol) (hf : d.fallbackNames = (r :: rest).reverse) (hr : WProposable r) :
+    wFeed lres [wFrame .notAvailable] d q =
+      .inr ({ d with fallbackNames := rest.reverse, protocol := r }, q ++ [wFrame (.protocol r)]) := by
+  simp only [wFeed, wRegister_na d hs, wProposeNext_cons d r rest hf hr]
+
+/-- The listener's first response (header + answer) as one payload or as two: the dialer ends up
+where the answer alone takes it from `WaitingProtocol`. -/
+theorem wFeed_header_parts (lres : Option (Except WErr Bytes)) (d : WDialer) (q : List Bytes) (m : Msg)
+    (hs : d.state = .waitingResponse) (hm : m = .notAvailable ∨ ∃ p, m = .protocol p ∧ WProposable p)
+    (parts : List Bytes) (hparts : parts = [wHdr ++ wFrame m] ∨ parts = [wHdr, wFrame m]) :
+    wFeed lres parts d q = wFeed lres [wFrame m] { d with state := .waitingProtocol } q := by
+  rcases hparts with rfl | rfl
+  · simp only [wFeed, wRegister_header_then d hs m hm]
+  · simp only [wFeed, wRegister_header d hs]
+
+/-- What the pair must end with: agreement on `p`, or failure on the dialer side with the listener
+never having accepted. -/
+def wAgreed : Option Bytes → WPairResult
+  | some p => ⟨.succeeded p, some (.ok p)⟩
+  | none => ⟨.failed, none⟩
+
+/-- **Induction over the fallback list.** The header has been exchanged, the dialer waits for the
+answer to its proposal `p` (in flight as the only payload) and still has `rest` to try. -/
+theorem wPairLoop_rounds (sup : List Bytes) (split : Nat) :
+    ∀ (rest : List Bytes) (p : Bytes) (fuel round : Nat) (d : WDialer),
+      rest.length < fuel → d.state = .waitingProtocol → d.protocol = p → d.fallbackNames = rest.reverse →
+      (∀ x ∈ p :: rest, WProposable x) →
+      wPairLoop sup split fuel round d [wFrame (.protocol p)] true = wAgreed (firstCommon (p :: rest) sup) := by
+  intro rest
+  induction rest with
+  | nil =>
+    intro p fuel round d hfuel hs hp hf hall
+    obtain ⟨f, rfl⟩ : ∃ f, fuel = f + 1 := ⟨fuel - 1, by omega⟩
+    have hpp : WProposable d.protocol := hp ▸ hall p (by simp)
+    subst hp
+    rw [wPairLoop, wListen_proto sup _ hpp, firstCommon_cons]
+    by_cases hmem : d.protocol ∈ sup
+    · simp [hmem, wFeed_confirm _ d [] hs hpp, wAgreed]
+    · simp [hmem, wFeed_na_last _ d [] hs (by simpa using hf), wAgreed, firstCommon]
+  | cons r rest ih =>
+    intro p fuel round d hfuel hs hp hf hall
+    obtain ⟨f, rfl⟩ : ∃ f, fuel = f + 1 := ⟨fuel - 1, by omega⟩
+    have hpp : WProposable d.protocol := hp ▸ hall p (by simp)
+    have hr : WProposable r := hall r (by simp)
+    subst hp
+    rw [wPairLoop, wListen_proto sup _ hpp, firstCommon_cons]
+    by_cases hmem : d.protocol ∈ sup
+    · simp [hmem, wFeed_confirm _ d [] hs hpp, wAgreed]
+    · have := ih r f (round + 1) { d with fallbackNames := rest.reverse, protocol := r }
+        (by simp at hfuel; omega) hs rfl rfl (fun x hx => hall x (List.mem_cons_of_mem _ hx))
+      simp [hmem, wFeed_na_next _ d [] r rest hs hf hr, this]
+
+theorem take_hdr (x : Bytes) : (wHdr ++ x).take headerFrameLen = wHdr := List.take_left' wHdr_length
+
+theorem drop_hdr (x : Bytes) : (wHdr ++ x).drop headerFrameLen = x := List.drop_left' wHdr_length
+
+theorem parts_cases (c : Prop) [Decidable c] (x : Bytes) :
+    (if c then [(wHdr ++ x).take headerFrameLen, (wHdr ++ x).drop headerFrameLen] else [wHdr ++ x]) = [wHdr ++ x] ∨
+    (if c then [(wHdr ++ x).take headerFrameLen, (wHdr ++ x).drop headerFrameLen] else [wHdr ++ x]) = [wHdr, x] := by
+  by_cases h : c
+  · right; rw [if_pos h, take_hdr, drop_hdr]
+  · left; rw [if_neg h]
+
+/-- A name the message-based dialer can propose first (with the header in front): valid and at most
+`MAX_FRAME_SIZE − 23` bytes. -/
+def WProposableMain (p : Bytes) : Prop := ValidName p ∧ p.length + 23 ≤ maxFrameSize
+
+instance (p : Bytes) : Decidable (WProposableMain p) := by unfold WProposableMain; infer_instance
+
+theorem WProposableMain.toFallback {p : Bytes} (h : WProposableMain p) : WProposable p := ⟨h.1, by have := h.2; omega⟩
+
+theorem wPropose_ok (main : Bytes) (fallbacks : List Bytes) (h : WProposableMain main) :
+    wPropose main fallbacks =
+      .ok ({ protocol := main, fallbackNames := fallbacks.reverse, state := .waitingResponse },
+        wHdr ++ wFrame (.protocol main)) := by
+  have h3 : protocolTryFrom main = .ok main := by simp [protocolTryFrom, h.1.1]
+  simp only [wPropose, h3, webrtcEncode_proto_true main h.2]
+
+/-- The whole pair, for every grouping. -/
+theorem wPair_agree (main : Bytes) (fallbacks sup : List Bytes) (split : Nat)
+    (hmain : WProposableMain main) (hfb : ∀ f ∈ fallbacks, WProposable f) :
+    wPair main fallbacks sup split = wAgreed (firstCommon (main :: fallbacks) sup) := by
+  have hall : ∀ x ∈ main :: fallbacks, WProposable x := by
+    intro x hx
+    rcases List.mem_cons.mp hx with rfl | hx
+    · exact hmain.toFallback
+    · exact hfb x hx
+  let d0 : WDialer := ⟨main, fallbacks.reverse, .waitingResponse⟩
+  let d1 : WDialer := ⟨main, fallbacks.reverse, .waitingProtocol⟩
+  have hd1 : { d0 with state := .waitingProtocol } = d1 := rfl
+  rw [wPair, wPropose_ok main fallbacks hmain]
+  simp only [take_hdr, drop_hdr]
+  change (wPairLoop sup split (2 * fallbacks.length + 6) 0 d0 _ false) = _
+  by_cases hsplit : split % 2 = 1
+  · -- header and proposal travel separately
+    rw [if_pos hsplit, show 2 * fallbacks.length + 6 = (2 * fallbacks.length + 5) + 1 by omega, wPairLoop,
+      wListen_header_only]
+    have hfeed : wFeed none [wHdr] d0 [wFrame (.protocol main)] = .inr (d1, [wFrame (.protocol main)]) := by
+      simp only [wFeed, wRegister_header d0 rfl, hd1]
+    simp only [Bool.false_eq_true, false_and, if_false, hfeed, Option.isSome_none]
+    exact wPairLoop_rounds sup split fallbacks main _ _ d1 (by omega) rfl rfl rfl hall
+  · rw [if_neg hsplit, show 2 * fallbacks.length + 6 = (2 * fallbacks.length + 5) + 1 by omega, wPairLoop,
+      wListen_header_proto sup main hmain.1 hmain.2, firstCommon_cons]
+    by_cases hmem : main ∈ sup
+    · simp only [hmem, if_true]
+      rcases parts_cases (true = true ∧ (wHdr ++ wFrame (.protocol main)).length > headerFrameLen ∧ 0 + 1 < 64 ∧
+        split >>> (0 + 1) % 2 = 1) (wFrame (.protocol main)) with h | h
+      all_goals
+        simp only [Bool.not_false] at h ⊢
+        rw [h, wFeed_header_parts _ d0 _ (.protocol main) rfl (Or.inr ⟨main, rfl, hmain.toFallback⟩) _ (by simp), hd1,
+          wFeed_confirm _ d1 _ rfl hmain.toFallback]
+        rfl
+    · simp only [hmem, if_false]
+      rcases parts_cases (true = true ∧ (wHdr ++ wFrame .notAvailable).length > headerFrameLen ∧ 0 + 1 < 64 ∧
+        split >>> (0 + 1) % 2 = 1) (wFrame .notAvailable) with h | h
+      all_goals
+        simp only [Bool.not_false] at h ⊢
+        rw [h, wFeed_header_parts _ d0 _ .notAvailable rfl (Or.inl rfl) _ (by simp), hd1]
+        cases hfbs : fallbacks with
+        | nil =>
+          rw [wFeed_na_last _ d1 _ rfl (by simp [d1, hfbs])]
+          simp [wAgreed, firstCommon]
+        | cons r rest =>
+          rw [wFeed_na_next _ d1 _ r rest rfl (by simp [d1, hfbs]) (hfb r (by simp [hfbs]))]
+          simp only [Option.isSome_none, Bool.false_eq_true, if_false]
+          exact wPairLoop_rounds sup split rest r _ _ _ (by simp; omega) rfl rfl rfl
+            (fun x hx => hall x (by rw [hfbs]; exact List.mem_cons_of_mem _ hx))
+
+/-! ### `ProtocolSet::new` + `report_substream_open` -/
+
+theorem lookup_map_const (n m : Bytes) (fbs : List Bytes) :
+    (fbs.map fun f => (f, m)).lookup n = if n ∈ fbs then some m else none := by
+  induction fbs with
+  | nil => simp
+  | cons f fbs ih =>
+    simp only [List.map_cons, List.lookup_cons, ih]
+    by_cases h : n = f
+    · subst h; simp
+    · have : (n == f) = false := by simpa using h
+      simp [this, h]
+
+theorem lookup_build (installed : List (Bytes × List Bytes)) (n : Bytes) :
+    (buildFallbackNames installed).lookup n = (installed.find? (fun e => n ∈ e.2)).map (·.1) := by
+  induction installed with
+  | nil => simp [buildFallbackNames]
+  | cons e rest ih =>
+    have : buildFallbackNames (e :: rest) = (e.2.map fun f => (f, e.1)) ++ buildFallbackNames rest := by
+      simp [buildFallbackNames]
+    rw [this, List.lookup_append, lookup_map_const, ih]
+    by_cases h : n ∈ e.2 <;> simp [h]
 
 end Litep2pVerif.Mss
